@@ -128,6 +128,12 @@ def generate(rng, tier="quick"):
             es = worlds.model_group(gspec).elem_size
             raw = raw.rjust(es, b"\x00") if es >= len(raw) else raw[-es:]
             steps.append({"op": "decode", "pset": 0, "body": {"kind": "hex", "hex": raw.hex()}})
+    if worlds.model_group(gspec).kind == "ed" and rng.random() < 0.15:
+        # the application also uses the library's lenient public decoder (accepts any curve point)
+        # on some strings first; the strict decoder must not care
+        aux = [{"op": "aux", "pset": 0, "fn": "bytes_to_unknown_group_element", "body": gen_body(rng, gspec)}
+               for _ in range(rng.choice([1, 2, 3]))]
+        steps = aux + steps
     scn = {"property": PROP, "config": cfg, "steps": steps}
     if scan:
         scn["intent"] = {"scan": scan}
